@@ -11,6 +11,7 @@ import (
 	"path/filepath"
 	"sort"
 	"sync"
+	"syscall"
 )
 
 type (
@@ -57,6 +58,29 @@ var (
 	Log []Op
 )
 
+// FailNext makes the n-th next operation of the given kind (write | sync | rename | remove |
+// open) fail with an I/O error without touching the file system - the native counterpart of
+// the engine's fault model.
+var failNext = map[string]int{}
+
+func FailNext(kind string, n int) {
+	mu.Lock()
+	failNext[kind] = n
+	mu.Unlock()
+}
+
+func shouldFail(kind, path string) error {
+	mu.Lock()
+	defer mu.Unlock()
+	if n, ok := failNext[kind]; ok && n > 0 {
+		failNext[kind] = n - 1
+		if n == 1 {
+			return &os.PathError{Op: kind, Path: path, Err: syscall.EIO}
+		}
+	}
+	return nil
+}
+
 func logOp(o Op) {
 	mu.Lock()
 	Log = append(Log, o)
@@ -101,6 +125,9 @@ func (f *File) Name() string { return f.f.Name() }
 func (f *File) Fd() uintptr  { return f.f.Fd() }
 
 func (f *File) Write(b []byte) (int, error) {
+	if err := shouldFail("write", f.path); err != nil {
+		return 0, err
+	}
 	var off int64
 	if f.app {
 		if fi, err := f.f.Stat(); err == nil {
@@ -119,6 +146,9 @@ func (f *File) Write(b []byte) (int, error) {
 func (f *File) WriteString(s string) (int, error) { return f.Write([]byte(s)) }
 
 func (f *File) WriteAt(b []byte, off int64) (int, error) {
+	if err := shouldFail("write", f.path); err != nil {
+		return 0, err
+	}
 	n, err := f.f.WriteAt(b, off)
 	if n > 0 {
 		logOp(Op{Kind: "write", Path: f.path, Off: off, Data: append([]byte(nil), b[:n]...)})
@@ -135,6 +165,9 @@ func (f *File) ReadDir(n int) ([]DirEntry, error)         { return f.f.ReadDir(n
 func (f *File) Readdirnames(n int) ([]string, error)      { return f.f.Readdirnames(n) }
 
 func (f *File) Sync() error {
+	if err := shouldFail("sync", f.path); err != nil {
+		return err
+	}
 	err := f.f.Sync()
 	if err == nil {
 		logOp(Op{Kind: "sync", Path: f.path})
@@ -175,6 +208,9 @@ func WriteFile(name string, data []byte, perm FileMode) error {
 }
 
 func Remove(name string) error {
+	if err := shouldFail("remove", name); err != nil {
+		return err
+	}
 	wasFile := exists(name)
 	err := os.Remove(name)
 	if err == nil && wasFile {
@@ -202,6 +238,9 @@ func RemoveAll(name string) error {
 }
 
 func Rename(from, to string) error {
+	if err := shouldFail("rename", from); err != nil {
+		return err
+	}
 	err := os.Rename(from, to)
 	if err == nil {
 		logOp(Op{Kind: "rename", Path: filepath.Clean(from), To: filepath.Clean(to)})
